@@ -704,6 +704,7 @@ func parseVerbatim(t *Tree, start Pos) (Node, error) {
 	tagName := "verbatim"
 
 	body := bytes.Buffer{}
+	bodyStart, started := start, false
 
 	if _, err := t.expect(tokenTagClose); err != nil {
 		return nil, err
@@ -716,6 +717,9 @@ func parseVerbatim(t *Tree, start Pos) (Node, error) {
 			return nil, newUnexpectedTokenError(tok)
 		case tokenTagOpen:
 			tok := t.next()
+			if !started {
+				bodyStart, started = tok.Pos, true
+			}
 			tok, err := t.expect(tokenName)
 			if err != nil {
 				return nil, err
@@ -724,10 +728,14 @@ func parseVerbatim(t *Tree, start Pos) (Node, error) {
 				if _, err := t.expect(tokenTagClose); err != nil {
 					return nil, err
 				}
-				return NewTextNode(body.String(), start), nil
+				return NewTextNode(body.String(), bodyStart), nil
 			}
 		default:
 			tok := t.next()
+			if !started {
+				// The body is a text run: it is where its first byte is.
+				bodyStart, started = tok.Pos, true
+			}
 			body.WriteString(tok.value)
 		}
 	}
